@@ -1926,6 +1926,16 @@ def t_render( ctx ):
     if dt is None or not isinstance( M.b['_value'], ast.Name ):
         res.bad( src, fn, 'render: datetime of the value', 'the calendar fields must be computed by datetime_from_number from the (rounded) value in the requested zone' )
         return res
+    # the zone designator a rendering carries BY DEFAULT identifies the zone: its database key, or the numeric offset.  The abbreviation
+    # ( strftime %Z ) does not: 'CET', 'EET', 'WET', 'MET', 'EST', 'MST', 'HST' are also KEYS of the database, whose rules differ from those of
+    # the zones that merely use the abbreviation - Africa/Algiers in July renders '... CET', which parses as zone CET ( summer time there )
+    for b_ in ast.walk( fn ):
+        if isinstance( b_, ast.If ) and pmatch( b_.test, 'tzdetail is None' ) is not None:
+            abbr = [ c_ for x_ in b_.body for c_ in ast.walk( x_ ) if isinstance( c_, ast.Constant ) and isinstance( c_.value, str ) and '%Z' in c_.value ]
+            if abbr:
+                res.bad( src, abbr[0], 'render designates the zone by its abbreviation ( %Z ) by default', "an abbreviation that is also a key of the zone database with other rules ( CET, EET, WET ... ) is parsed into that other zone: Africa/Algiers 2018-07-01 11:00:00.000 CET comes back one hour off, silently" )
+            else:
+                res.ok( src, b_, 'the default zone designator is not the abbreviation' )
     VALUE = M.name( '_value' )
     defs = [ s for s in walk_no_nested( fn ) if isinstance( s, ast.Assign ) and dotted( s.targets[0] ) == VALUE ]
     R = Matcher()
